@@ -589,7 +589,7 @@ func c10Run(c *Case) {
 func init() {
 	register(&Prop{
 		ID: "C10", Level: "exploration",
-		Rule: "metamorphic: a case (program, selectors, input) drawn from a pool (object family: print / printf %v / for-in / json() / key collection+sort / pluck over objects with 2-16 keys from literals and from the input; whole-grammar programs; objects whose keys differ only in case, read and stored under spellings that are and are not keys; selectors with a memory (counters, collections: they start afresh in every run); a container-comparison family (objects of 2-6 mixed members compared, searched and matched: the outcome, error or not, is the same every time); inputs prefixed with a byte order mark, half of one, a record separator or white space; a literal-content family whose output depends on every regex / string / number literal at fixed source positions, in rules, functions, match cases and selectors; structured, function, assignment-history, match programs; document printing; selectors; 12 'disturber' programs that assign to method names, fail inside calls, hit limits, build cycles) is executed in-process 8 times back to back, 3 more times each after 1-3 unrelated pool/disturber runs in the same process, 4 times with the same input bytes delivered in reads of 1 / 1-2 / 1-7 / 5 bytes, once more after its position-preserving sibling (same layout, every string / regex / number literal replaced by other content of the same length, in program and selectors), and (every 4th case) in 4 fresh processes of the binary with -o -; stdout, JSON output (or its error) and outcome class must be byte-identical across all of them. Non-trivial = the case touches an object with >= 2 keys or a prototype method; distinct by program+input+selectors. Go randomises map iteration per range statement, so an order-dependent output over n >= 3 keys repeats 11 times by chance with probability < 1e-8.; an unwritable family: a root or json() argument with 2-5 members that cannot be written as JSON (regex, function, reference to an enclosing container) fails with the same report every time",
+		Rule: "metamorphic: a case (program, selectors, input) drawn from a pool (object family: print / printf %v / for-in / json() / key collection+sort / pluck over objects with 2-16 keys from literals and from the input; whole-grammar programs; objects whose keys differ only in case, read and stored under spellings that are and are not keys; selectors with a memory (counters, collections: they start afresh in every run); a container-comparison family (objects of 2-6 mixed members compared, searched and matched: the outcome, error or not, is the same every time); inputs prefixed with a byte order mark, half of one, a record separator or white space; a literal-content family whose output depends on every regex / string / number literal at fixed source positions, in rules, functions, match cases and selectors; structured, function, assignment-history, match programs; document printing; selectors; 12 'disturber' programs that assign to method names, fail inside calls, hit limits, build cycles) is executed in-process 8 times back to back, 3 more times each after 1-3 unrelated pool/disturber runs in the same process, 4 times with the same input bytes delivered in reads of 1 / 1-2 / 1-7 / 5 bytes, once more after its position-preserving sibling (same layout, every string / regex / number literal replaced by other content of the same length, in program and selectors), and (every 4th case) in 4 fresh processes of the binary with -o -; stdout, JSON output (or its error) and outcome class must be byte-identical across all of them. Non-trivial = the case touches an object with >= 2 keys or a prototype method; distinct by program+input+selectors. Go randomises map iteration per range statement, so an order-dependent output over n >= 3 keys repeats 11 times by chance with probability < 1e-8.; an unwritable family: a root or json() argument with 2-5 members that cannot be written as JSON (regex, function, reference to an enclosing container) fails with the same report every time; a string-index family (characters read through s[i], for-in over strings, split(\"\")) with disturbers that store through string indices",
 		NumCases: func(tier string) int {
 			if tier == "thorough" {
 				return 60000
